@@ -77,22 +77,34 @@ class Rig:
 
 def run_history(channel, tx_delays, rx_delays, init_delay, chunks, rx_strings,
                 rx_gaps, res, desc):
+    if desc.get("prior"):
+        # an earlier Serial instance of the same process (the other channel)
+        # that is abandoned with bytes still pending
+        prior = Rig(2 if channel == 1 else 1)
+        try:
+            _run(prior, [3], [0], 0, [bytes(range(60))], [], [0], Result(),
+                 dict(desc, prior=False), max_cycles=desc["prior"])
+        finally:
+            prior.close()
     rig = Rig(channel)
     try:
         return _run(rig, tx_delays, rx_delays, init_delay, chunks,
                     rx_strings, rx_gaps, res, desc,
-                    init_rr=desc.get("init_rr", 0))
+                    init_rr=desc.get("init_rr", 0),
+                    init_ta=desc.get("init_ta", 0))
     finally:
         rig.close()
 
 
 def _run(rig, tx_delays, rx_delays, init_delay, chunks, rx_strings, rx_gaps,
-         res, desc, init_rr=0):
+         res, desc, init_rr=0, init_ta=0, max_cycles=None):
     d = rig.data
     dev = rig.dev
     # terminal state; the receive-request toggle is not reset by an
     # initialisation: a second session may start with it set
-    status = 2 if init_rr else 0  # bit0 tx_accept, bit1 rx_request, bit2 init
+    # (neither is the transmit-accept toggle)
+    status = (2 if init_rr else 0) | (1 if init_ta else 0)
+    # bit0 tx_accept, bit1 rx_request, bit2 init
     d[rig.inb] = status
     tx_pending = None            # (string, cycles left)
     tx_seen = []                 # strings accepted by the terminal
@@ -114,7 +126,7 @@ def _run(rig, tx_delays, rx_delays, init_delay, chunks, rx_strings, rx_gaps,
         res.violation(key, f"{msg} ({desc})", case=desc)
         return False
 
-    for cyc in range(MAXCYC):
+    for cyc in range(max_cycles or MAXCYC):
         ctrl = d[rig.outb]
         ostr_raw = bytes(d[rig.outb + 1:rig.outb + 24])
         ostr = ostr_raw[1:1 + min(ostr_raw[0], 22)]
@@ -150,7 +162,7 @@ def _run(rig, tx_delays, rx_delays, init_delay, chunks, rx_strings, rx_gaps,
                             f"{tx_pending[0]!r} to {ostr!r} before accept")
             if tx_pending[1] == 0:
                 tx_seen.append(tx_pending[0])
-                status = (status & ~1) | treq
+                status ^= 1          # the terminal toggles "accepted"
                 tx_pending = None
             else:
                 tx_pending[1] -= 1
@@ -247,6 +259,8 @@ def run_shard(params):
                for _ in range(rng.randint(1, ntr))]
         desc = dict(channel=channel, tx_delays=txd, rx_gaps=rxg,
                     init_rr=rng.choice([0, 0, 1]),
+                    init_ta=rng.choice([0, 0, 1]),
+                    prior=rng.choice([0, 0, 0, 5, 8]),
                     init_delay=initd, chunks=[c.hex() for c in chunks],
                     rx_strings=[s.hex() for s in rxs])
         ok = run_history(channel, txd, [0], initd, chunks, rxs, rxg, res,
